@@ -76,6 +76,22 @@ def execute (n : Nat) (init : Option Tableau) (c : List QItem) (coins : List Boo
     | none => .engineError
   else .refused
 
+/-- one shot of `execute_circuit_repeated` (and the single run followed by `samples()`): the queue
+from `initial_state` — the SAME for every shot — then `sample_shots` (no collapse) of the qubits
+of the final measurements on the tableau of this shot.  `coins` feed the collapsing measurements,
+`fcoins` the final sample. -/
+def shotOf (n : Nat) (init : Option Tableau) (c : List QItem) (finalQs : List Nat)
+    (coins fcoins : List Bool) : Res × List Bool :=
+  match execute n init c coins with
+  | .done T outs => (.done T outs, (measure n T finalQs fcoins).2.map Prod.fst)
+  | r => (r, [])
+
+/-- `execute_circuit_repeated(circuit, nshots, initial_state)`: one `shotOf` per shot, each with
+its own random bits. -/
+def executeRepeated (n : Nat) (init : Option Tableau) (c : List QItem) (finalQs : List Nat)
+    (shots : List (List Bool × List Bool)) : List (Res × List Bool) :=
+  shots.map fun s => shotOf n init c finalQs s.1 s.2
+
 /-- the tableau operations of the entries that change the state unitarily. -/
 def opsOf : List QItem → List Gate
   | [] => []
